@@ -1,7 +1,7 @@
 """C01 — stream-level check (see DESIGN.md section 6)."""
 from lib import kv
 PID = "C01"
-LEVEL = "exploration"
+LEVEL = "proof"
 CMD = "c01"
 RULE = 'random pipelines: data shape (text, UTF-8 with large code-point sets, DNA, ELF/x86-like, WAV-like, runs, skewed histograms, base64, zeros, random) x transform chain (single, <=3, <=8 incl. NONE fillers) x 9 entropy codecs x block size x jobs 1..64 x checksum x hint {absent, exact, smaller, larger} x {header, headerless} x Write partition, read back with an independent job count and Read size; plus every single transform x every entropy codec on its matching data shape (1/3 per quick run, all in thorough) and a regression corpus. Non-trivial = distinct (configuration, shape, size) with more than one block or a chain of >= 2 stages. Violation: an error after the configuration was accepted, a mismatch, or anything but (0, EOF) after the end.'
 
